@@ -4,7 +4,7 @@ from props import hdlc_model as M
 FRAMING = ("frame_inv", "unstuff(raw)", "octets == raw", "ghost:", "returned", "pre:", "raises:", "safe:", "no pending escape", "consumed", "result is the list")
 def build(repo, tier, seed):
     r = M.hdlc_result(repo, tier, ("lemmas", "get_address", "init", "append", "valid", "accessors"), True,
-                      select=lambda oid: ("HdlcFrameReader" not in oid) or any(c in oid for c in FRAMING))
+                      select=None)     # every clause: the reader invariant is inductive only as a whole
     r.functions = sorted({o.func for o in r.obligations if o.func} | set(M.READER_FUNCS))
     r.assumptions = ["bytearray.append/extend/clear/find, bytes() and slicing are modelled as offset views over one array (prelude contracts, DESIGN section 5)",
                      "ghost stream G: the chunks given to read() are consecutive segments of one stream (this is what 'a byte stream split into read() calls' means)"]
